@@ -121,7 +121,7 @@ def main():
                 r["message"] = ("obligation %s refuted by z3: %s" % (n, r.get("solver_output", ""))) if r["status"] == "failed" else ""
                 fo["obligations"].append(r)
             # vacuity guards: a function that left the verified subset is reported as UNDECIDED (in-subset obligation), not as a checker error
-            oos = bool(fo.get("out_of_subset"))
+            oos = bool(fo.get("out_of_subset")) or any(o["name"].endswith("/in-subset") and o["status"] != "discharged" for o in fo["obligations"])
             if not fo["obligations"] and not oos:
                 res["errors"].append("zero obligations generated for %s (vacuity guard)" % c.qualname)
             exp = getattr(c, "min_obligations", 1)
